@@ -124,6 +124,7 @@ def run_body(ctx, H, rep, rnd, minimize, multi, problem, evaluator, agg, value, 
     from geneticengine.algorithms.gp.operators.selection import TournamentSelection
     from geneticengine.algorithms.gp.population import Population
     from geneticengine.evaluation.budget import SearchBudget
+    from geneticengine.evaluation.sequential import SequentialEvaluator
     from geneticengine.evaluation.tracker import MultiObjectiveProgressTracker, SingleObjectiveProgressTracker
     from geneticengine.problems import MultiObjectiveProblem, SingleObjectiveProblem
     from geneticengine.solutions.individual import Individual
@@ -148,6 +149,25 @@ def run_body(ctx, H, rep, rnd, minimize, multi, problem, evaluator, agg, value, 
             ctx._keepalive = other
             evaluator.evaluate(other, members)
             ctx.faults["represent"] += 1
+        if not multi and H.draw(4) == 0:
+            # F13 (history): the individuals were last evaluated under a problem that no longer exists; the problem they are
+            # judged under now is a new object (which the allocator may well place at the dead one's address)
+            def under_a_problem_that_dies():
+                tmp = SingleObjectiveProblem(lambda p: -value(p.v) - 1.0, minimize=not minimize)
+                SequentialEvaluator().evaluate(tmp, members)
+                return id(tmp)
+
+            dead_id = under_a_problem_that_dies()
+            main_ff = problem.ff["ff"]
+            spare = []
+            for _ in range(8):
+                problem = SingleObjectiveProblem(main_ff, minimize=minimize)
+                if id(problem) == dead_id:
+                    ctx.stat("history:new-problem-at-the-dead-one's-address")
+                    break
+                spare.append(problem)
+            ctx.faults["carry_over"] += 1
+            ctx.stat("history:evaluated-under-a-dead-problem")
         if pre:
             evaluator.evaluate(problem, members if pre == 2 else members[: n // 2])
         if form == "population":
@@ -209,6 +229,12 @@ def run_body(ctx, H, rep, rnd, minimize, multi, problem, evaluator, agg, value, 
     branches = [(ProbedElitism(), we), (NoveltyStep(), wn),
                 (SequenceStep(sel, GenericCrossoverStep(H.pick([0.0, 0.5, 1.0])), GenericMutationStep(H.pick([0.5, 1.0]))), wr)]
     order = H.permutation(3)  # the elitism slot may be listed before or after the other members
+    nested = H.draw(3) == 0
+    if nested:
+        # the elitism slot sits in an inner ParallelStep, which receives the whole population but is asked for a part of it
+        from geneticengine.algorithms.gp.operators.combinators import IdentityStep
+
+        branches[0] = (ParallelStep([branches[0][0], IdentityStep()], weights=[H.pick([1, 3]), 1]), max(we, 2))
     step = ParallelStep([branches[i][0] for i in order], weights=[branches[i][1] for i in order])
     gens = 4 + H.draw(6)
     best_by_gen = {}
@@ -229,7 +255,7 @@ def run_body(ctx, H, rep, rnd, minimize, multi, problem, evaluator, agg, value, 
             return self.calls > gens
 
     tracker = (MultiObjectiveProgressTracker if multi else SingleObjectiveProgressTracker)(problem, evaluator, recorders=[Rec()])
-    ctx.sample = {"gp_population": pop, "weights": [we, wn, wr], "member_order": [["elitism", "novelty", "breed"][i] for i in order], "lexicase": lexicase,
+    ctx.sample = {"gp_population": pop, "weights": [we, wn, wr], "member_order": [["elitism", "novelty", "breed"][i] for i in order], "lexicase": lexicase, "elitism_nested": nested,
                   "generations": gens, "minimize": minimize, "multi_objective": multi, "fitness_return_type": rtype}
     try:
         GeneticProgramming(problem=problem, budget=GenBudget(), representation=rep, random=rnd, tracker=tracker, population_size=pop, step=step).search()
